@@ -8,6 +8,10 @@ import traceback
 
 
 def main(argv=None):
+    argv = list(sys.argv[1:] if argv is None else argv)
+    if argv and argv[0] == "selftest":
+        from .selftest.run import main as stmain
+        return stmain(argv[1:])
     ap = argparse.ArgumentParser(prog="dfv")
     sub = ap.add_subparsers(dest="cmd")
     c = sub.add_parser("check")
